@@ -80,8 +80,13 @@ func verifFinalizer(obj interface{}) {
 	if hh == nil || hh.Finalizer == nil {
 		return
 	}
+	// no finalizer goroutine under simulation: it would run library code outside the scheduler
 	runtime.SetFinalizer(obj, nil)
-	hh.Finalizer(obj)
+	if _, ok := obj.(*MultIterator); ok {
+		hh.Finalizer(obj)
+	}
+	// destroyHeader (clears an unreachable header) and destroyIterator on a FlatMaskedIterator
+	// (does nothing) have no observable effect: they are simply not run.
 }
 
 // VerifRunFinalizer runs what the garbage collector would have run for obj.
